@@ -81,6 +81,7 @@ class EngineBase:
         self.stats = {'paths': 0, 'pruned': 0, 'safety_checks': 0}
         self.objattrs = {}      # (sort, attr) -> type string | callable(engine, st, obj) -> Val
         self.added_axioms = set()
+        self.callable_sorts = {}  # sort -> callable(engine, st, fobj, args) -> Val
         self.entry_fid = None
         self.cur_loops = []
         self.lemma_obligations = []
